@@ -54,7 +54,7 @@ Fixpoint spec_futs (evs : list ev) (next : N) (k : nat) : list fview :=
   | [] => []
   | UserSend m rt cb mid :: r =>
     let '(i, next') := send_id mid next in
-    outcome_view rt cb (first_rel i k r) :: spec_futs r next' (S k)
+    outcome_view rt (cbflag cb) (first_rel i k r) :: spec_futs r next' (S k)
   | _ :: r => spec_futs r next k
   end.
 
@@ -79,13 +79,41 @@ Fixpoint in_ids (evs : list ev) : list id :=
   | _ :: r => in_ids r
   end.
 
-(* outgoing ids come from an injective supply: no id is used twice *)
-Definition injective_supply (evs : list ev) : Prop := NoDup (sent_ids evs 0%N).
+(* ---- which requests are OUTSTANDING, without any table: a request is outstanding from its send
+   until the first response carrying its id or the caller's cancel ---- *)
+Notation live := (list (id * nat * N)) (only parsing).      (* (id, handle, result type) *)
+Definition live_ids (lv : live) : list id := map (fun x => fst (fst x)) lv.
+Definition drop_id (i : id) (lv : live) : live := filter (fun x => negb (id_eqb (fst (fst x)) i)) lv.
+Definition drop_handle (h : nat) (lv : live) : live := filter (fun x => negb (Nat.eqb (snd (fst x)) h)) lv.
+
+Definition mem_id (i : id) (l : list id) : bool := existsb (id_eqb i) l.
+
+(* cids: every request is sent with an id distinct from every other OUTSTANDING one (an id is
+         free again once its request has been answered or given up);
+   cval: a result validates against the result type of the outstanding request it answers *)
+Fixpoint wf_scan (cids cval : bool) (lv : live) (n : N) (k : nat) (evs : list ev) : bool :=
+  match evs with
+  | [] => true
+  | UserSend m rt cb mid :: r =>
+    let '(i, n') := send_id mid n in
+    (negb cids || negb (mem_id i (live_ids lv))) && wf_scan cids cval ((i, k, rt) :: lv) n' (S k) r
+  | RecvResult i p oks :: r =>
+    (negb cval || forallb (fun x => implb (id_eqb (fst (fst x)) i) (mem_n (snd x) oks)) lv)
+    && wf_scan cids cval (drop_id i lv) n k r
+  | RecvError i _ _ _ :: r => wf_scan cids cval (drop_id i lv) n k r
+  | UserCancelOut h :: r => wf_scan cids cval (drop_handle h lv) n k r
+  | _ :: r => wf_scan cids cval lv n k r
+  end.
+
+(* outgoing ids come from an injective supply: no id is used while it is still outstanding *)
+Definition injective_supply (evs : list ev) : Prop := wf_scan true false [] 0%N 0 evs = true.
+(* results validate against the result type of the method that was requested with that id *)
+Definition valid_results (evs : list ev) : Prop := wf_scan false true [] 0%N 0 evs = true.
 (* the peer's request ids (and the ids it cancels) are none of ours *)
 Definition disjoint_directions (evs : list ev) : Prop :=
   forall i, In i (in_ids evs) -> ~ In i (sent_ids evs 0%N).
-(* results validate against the result type of the method that was requested with that id *)
-Definition valid_results (evs : list ev) : Prop :=
+(* the stronger, static form used for C16: whatever request of the history the id belongs to *)
+Definition strict_valid_results (evs : list ev) : Prop :=
   forall i p oks, In (RecvResult i p oks) evs ->
   forall rt, In (i, rt) (sent evs 0%N) -> mem_n rt oks = true.
 
@@ -95,19 +123,10 @@ Definition lsp_codes (evs : list ev) : Prop :=
 Definition lsp_codes_b (evs : list ev) : bool :=
   forallb (fun e => match e with RecvError _ c _ _ => int32 c | _ => true end) evs.
 
-Definition mem_id (i : id) (l : list id) : bool := existsb (id_eqb i) l.
-Fixpoint nodup_ids (l : list id) : bool :=
-  match l with [] => true | i :: r => negb (mem_id i r) && nodup_ids r end.
-
-Definition injective_supply_b (evs : list ev) : bool := nodup_ids (sent_ids evs 0%N).
+Definition injective_supply_b (evs : list ev) : bool := wf_scan true false [] 0%N 0 evs.
+Definition valid_results_b (evs : list ev) : bool := wf_scan false true [] 0%N 0 evs.
 Definition disjoint_directions_b (evs : list ev) : bool :=
   forallb (fun i => negb (mem_id i (sent_ids evs 0%N))) (in_ids evs).
-Definition valid_results_b (evs : list ev) : bool :=
-  forallb (fun e => match e with
-                    | RecvResult i _ oks =>
-                      forallb (fun jr => implb (id_eqb (fst jr) i) (mem_n (snd jr) oks)) (sent evs 0%N)
-                    | _ => true
-                    end) evs.
 
 Definition guard (evs : list ev) : bool :=
   injective_supply_b evs && disjoint_directions_b evs && valid_results_b evs && lsp_codes_b evs.
